@@ -155,6 +155,9 @@ def deser_mapper(parent, data):
 
 
 CUSTOM_KM = {"t": "T", "v": "V", "str": "S", "data_id": "#", "kind": "K", "unused": "u"}
+# outside the admissible options (the model must still agree with the implementation):
+CLASH_KM = {"t": "v", "n": "str", "kind": "data_id", "str": "x"}     # short names that are keys of the entries
+PARTIAL_VM = {"t": ["e", "e", "i"], "kind": ["a"]}                   # does not cover all values; a duplicate
 CUSTOM_KM_FS = {"n": "nm", "m": "mt", "unused": "u"}
 CUSTOM_VM = {"t": ["e", "p", "i", "t", "d", "w"]}
 CUSTOM_VM_TYPED = {"t": ["w", "d", "t", "i", "p", "e"], "kind": ["zz", "c", "b", "a", "child"]}
@@ -235,12 +238,16 @@ def resolve_opts(desc):
         skw["key_map"] = False
     elif km == "custom" and ms != "derived":
         skw["key_map"] = dict(CUSTOM_KM)
+    elif km == "clash":
+        skw["key_map"] = dict(CLASH_KM)
     if vm == "false":
         skw["value_map"] = False
     elif vm == "custom" and ms != "derived":
         skw["value_map"] = {k: list(v) for k, v in custom_vm.items()}
     elif vm == "custom_nokind":
         skw["value_map"] = {"t": list(custom_vm["t"])}
+    elif vm == "partial":
+        skw["value_map"] = {k: list(v) for k, v in PARTIAL_VM.items()}
     if desc.get("meta"):
         skw["meta"] = dict(desc["meta"])
     return skw, lkw, cls
@@ -257,6 +264,8 @@ def doc_maps(desc, root):
         return ({} if km != "custom" else dict(CUSTOM_KM_FS)), {}
     if km == "false":
         kmap = {}
+    elif km == "clash":
+        kmap = dict(CLASH_KM)
     elif km == "custom" or ms == "derived":
         kmap = dict(CUSTOM_KM)
     else:
@@ -266,6 +275,8 @@ def doc_maps(desc, root):
     else:
         if vm == "custom_nokind":
             vmap = {"t": list(custom_vm["t"])}
+        elif vm == "partial":
+            vmap = {k: list(v) for k, v in PARTIAL_VM.items()}
         elif vm == "custom" or ms == "derived":
             vmap = {k: list(v) for k, v in custom_vm.items()}
         else:
@@ -378,6 +389,8 @@ def coq_kopt(desc) -> str:
         if km != "custom":
             return "KTrue"
         return "(KCustom " + H.coq_list(f"({H.coq_text(k)}, {H.coq_text(v)})" for k, v in CUSTOM_KM_FS.items()) + ")"
+    if km == "clash":
+        return "(KCustom " + H.coq_list(f"({H.coq_text(k)}, {H.coq_text(v)})" for k, v in CLASH_KM.items()) + ")"
     if km == "custom" or desc.get("mapper") == "derived":
         return "(KCustom " + H.coq_list(f"({H.coq_text(k)}, {H.coq_text(v)})" for k, v in CUSTOM_KM.items()) + ")"
     return "KTrue"
@@ -393,6 +406,8 @@ def coq_vopt(desc) -> str:
         return "VTrue"
     if vm == "custom_nokind":
         m = {"t": custom_vm["t"]}
+    elif vm == "partial":
+        m = PARTIAL_VM
     elif vm == "custom" or desc.get("mapper") == "derived":
         m = custom_vm
     else:
